@@ -21,6 +21,68 @@ def showSeg : Option (List UInt8 × List UInt8) → String
   | some (out, rest) => "some:" ++ bytesToHex out ++ ":" ++ bytesToHex rest
   | none => "none"
 
+/-! number literals on the wire: `d:f<16 hex>:<exp|n>:<u|l>`, `h:<int>:<exp|n>:<u|l>:<u|l>`, `b:<int>:<u|l>` -/
+
+def upper? : String → Option Bool
+  | "u" => some true
+  | "l" => some false
+  | _ => none
+
+def wireBits? (s : String) : Option UInt64 :=
+  match s.toList with
+  | 'f' :: rest => if rest.length == 16 then (hexNat? rest).map UInt64.ofNat else none
+  | _ => none
+
+def bitsToWire (b : UInt64) : String := "f" ++ natToHex16 b.toNat
+
+def numLit? (s : String) : Option (NumLit UInt64) :=
+  match s.splitOn ":" with
+  | ["d", f, e, u] => do
+    let bits ← wireBits? f
+    let up ← upper? u
+    if e == "n" then pure (.decimal bits none)
+    else
+      let ev ← e.toInt?
+      pure (.decimal bits (some (ev, up)))
+  | ["h", n, e, eu, xu] => do
+    let nv ← n.toNat?
+    let eup ← upper? eu
+    let xup ← upper? xu
+    if e == "n" then pure (.hex nv none xup)
+    else
+      let ev ← e.toNat?
+      pure (.hex nv (some (ev, eup)) xup)
+  | ["b", n, u] => do
+    let nv ← n.toNat?
+    let up ← upper? u
+    pure (.binary nv up)
+  | _ => none
+
+def ul (b : Bool) : String := if b then "u" else "l"
+
+def showNumLit : NumLit UInt64 → String
+  | .decimal x none => s!"d:{bitsToWire x}:n:l"
+  | .decimal x (some (e, u)) => s!"d:{bitsToWire x}:{e}:{ul u}"
+  | .hex n none xu => s!"h:{n}:n:l:{ul xu}"
+  | .hex n (some (e, eu)) xu => s!"h:{n}:{e}:{ul eu}:{ul xu}"
+  | .binary n u => s!"b:{n}:{ul u}"
+
+def showErr : NumberParsingError → String
+  | .invalidHexadecimalNumber => "InvalidHexadecimalNumber"
+  | .invalidHexadecimalExponent => "InvalidHexadecimalExponent"
+  | .invalidDecimalNumber => "InvalidDecimalNumber"
+  | .invalidDecimalExponent => "InvalidDecimalExponent"
+  | .invalidBinaryNumber => "InvalidBinaryNumber"
+
+def showOptBits : Option UInt64 → String
+  | some b => "some:" ++ bitsToWire b
+  | none => "none"
+
+def showDesc : Option Spec.NumDesc → String
+  | some (.int n) => s!"int:{n}"
+  | some (.dec d e) => s!"dec:{d}:{e}"
+  | none => "none"
+
 def handle (op : String) (args : List String) : String :=
   match op, args with
   | "wstr", [h] =>
@@ -57,6 +119,30 @@ def handle (op : String) (args : List String) : String :=
       " ".intercalate [bytesToHex (writeInterpSegment v), showSeg (Spec.decodeInterpSegment (r ++ [96])),
         showSeg (Spec.decodeInterpSegment (r ++ [123, 120, 125]))]
     | _, _ => "bad-args"
+  -- number: literal, real output ↦ model output, value of the REAL output by the reference
+  | "num", [lit, hr] =>
+    match numLit? lit, hexToBytes? hr with
+    | some l, some r =>
+      bytesToHex (writeNumber floatOps l) ++ " " ++ showOptBits (Spec.evalWritten r)
+    | _, _ => "bad-args"
+  | "wnum", [lit] =>
+    match numLit? lit with
+    | some l => bytesToHex (writeNumber floatOps l)
+    | none => "bad-args"
+  -- value of a piece of written number text (literal, `-`literal, `(a/b)`) by the reference
+  | "nval", [h] =>
+    match hexToBytes? h with
+    | some t => showOptBits (Spec.evalWritten t)
+    | none => "bad-args"
+  -- parse a number token: model of FromStr, reference description and value
+  | "pnum", [h] =>
+    match hexToBytes? h with
+    | some t =>
+      (match parseNumber floatOps t with
+       | .ok l => "ok:" ++ showNumLit l
+       | .error e => "err:" ++ showErr e)
+      ++ " " ++ showDesc (Spec.luauNumber? t) ++ " " ++ showOptBits (Spec.numberValue t)
+    | none => "bad-args"
   | "lua51safe", [h] =>
     match hexToBytes? h with
     | some v => toString (lua51Safe v)
